@@ -306,7 +306,7 @@ class Effect:
 
 
 class State:
-    __slots__ = ('mem', 'conds', 'effects', 'havoc_roots', 'loopdepth', 'scope', 'loops')
+    __slots__ = ('mem', 'conds', 'effects', 'havoc_roots', 'loopdepth', 'scope', 'loops', 'shadow')
 
     def __init__(self):
         self.mem = {}
@@ -316,6 +316,7 @@ class State:
         self.loopdepth = 0
         self.scope = ''
         self.loops = []        # [(loop node, {key: (havoc atom, value before the loop)})]
+        self.shadow = {}       # key -> last value before a call clobbered it
 
     def copy(self):
         s = State()
@@ -326,6 +327,7 @@ class State:
         s.loopdepth = self.loopdepth
         s.scope = self.scope
         s.loops = list(self.loops)
+        s.shadow = dict(self.shadow)
         return s
 
 
@@ -412,6 +414,7 @@ class Engine:
         self.npaths = 0
         self.record_loads = False
         self.pure = set()            # callees shown elsewhere not to modify their arguments' objects
+        self.clobber_pre = {}        # havoc atom -> value the location had before the clobbering call
         self.clobber_origin = {}     # havoc atom -> location it stands for (value after a call that may have written it)
 
     # -- lookup ------------------------------------------------------------
@@ -555,6 +558,30 @@ class Engine:
         lins = self._strengthen(facts)
         r = lin.infeasible(lins)
         return not r
+
+
+def exit_only_nodes(root):
+    """ids of all nodes inside straight-line statements that are directly followed
+    (in the same compound statement) by a return: their effects never reach the
+    next loop iteration"""
+    out = set()
+    for x in cast.walk(root):
+        if cast.kind(x) != 'CompoundStmt':
+            continue
+        stmts = cast.inner(x)
+        if not stmts or cast.kind(stmts[-1]) != 'ReturnStmt':
+            continue
+        # walk backwards over simple expression statements
+        i = len(stmts) - 2
+        while i >= 0:
+            sk = cast.kind(stmts[i])
+            if sk in ('BinaryOperator', 'CompoundAssignOperator', 'UnaryOperator', 'ParenExpr', 'CallExpr', 'CStyleCastExpr', 'ImplicitCastExpr'):
+                for y in cast.walk(stmts[i]):
+                    out.add(id(y))
+                i -= 1
+            else:
+                break
+    return out
 
 
 def division_axioms(lins):
@@ -817,7 +844,10 @@ class _Activation:
         for root in nodes:
             if root is None:
                 continue
+            skip = exit_only_nodes(root)
             for x in cast.walk(root):
+                if id(x) in skip:
+                    continue
                 kd = cast.kind(x)
                 tgt = None
                 if kd == 'BinaryOperator' and x.get('opcode') == '=':
@@ -860,7 +890,11 @@ class _Activation:
                     continue
                 rl = self.e.record_loads
                 self.e.record_loads = False
-                pre = self.read(st0, key)
+                kt = self.e.types.get(key) or cast.qual_type(x)
+                if kt and self.record_fields(kt) is not None:
+                    pre = self.whole_struct(st0, key)
+                else:
+                    pre = self.read(st0, key)
                 self.e.record_loads = rl
                 for kk in [kk for kk in st.mem if kk == key or rooted_at(kk, ('&', key))]:
                     del st.mem[kk]
@@ -910,6 +944,7 @@ class _Activation:
         if base[0] in ('+', '-'):
             base = base[1]
         for kk in [kk for kk in st.mem if rooted_at(kk, base) and kk != base and not (kk[0] == 'v')]:
+            st.shadow[kk] = st.mem[kk]
             del st.mem[kk]
         if base[0] == '&':
             key = base[1]
@@ -1246,6 +1281,7 @@ class _Activation:
                 h = fresh('clobbered:' + fmt(key))
                 self.e.types[h] = self.e.types.get(key)
                 self.e.clobber_origin[h] = key
+                self.e.clobber_pre[h] = st.shadow.get(key, key)
                 st.mem[key] = h
                 return h
         return key
